@@ -15,7 +15,7 @@ def main():
             print("APPLY FAILED", d); return 3
         for p in props:
             t0 = time.time()
-            r = subprocess.run(["/verif/check", p, "--tier", tier], capture_output=True, text=True, cwd="/verif",
+            r = subprocess.run(["timeout", "1500", "/verif/check", p, "--tier", tier], capture_output=True, text=True, cwd="/verif",
                                env=dict(os.environ, VERIF_REPO=wt, VERIF_EVID="/tmp/mut-evid"))
             lines = [l for l in r.stdout.splitlines() if l.startswith(("VIOLATION", "KNOWN", "OK", "INCONCLUSIVE", "DIVERGENCE"))]
             print("%s on %s: rc=%d %s (%ds)" % (os.path.basename(d), p, r.returncode, [l[:160] for l in lines[:2]], time.time() - t0), flush=True)
